@@ -36,6 +36,47 @@ NOT_DECIDED = "that the resulting statement order satisfies every foreign-key gr
 CORE = 'pony.orm.core'
 
 
+def m2m_rule(ctx, P='C16-M2M'):
+    repo, cg = ctx.repo, ctx.cg
+    # ---------------------------------------------------------------- M2M
+    # the link rows to insert / remove are taken from every object of a modified collection, whatever the object's own status: an object that is
+    # marked for deletion still has its pending `removed` pairs collected -- flush deletes those link rows *before* the object's own row, which a
+    # link table with plain (non-cascading) foreign keys requires.  Scenario: first side of a many-to-many relation, owner marked_to_delete (and,
+    # as a second scenario, not marked), setdata.added / setdata.removed non-empty: every iteration of the collecting loop passes both inner loops.
+    from ..typestate import scenario_edges
+    cm = repo.fn('pony.orm.core', 'SessionCache._calc_modified_m2m'); gm = cg.cfg(cm)
+    inner = {}
+    for x in gm.nodes:
+        if x.kind != 'iter': continue
+        for a_ in ast.walk(x.ast.iter):
+            if isinstance(a_, ast.Attribute) and a_.attr in ('added', 'removed'): inner.setdefault(a_.attr, []).append(x); break
+    ctx.need('added' in inner and 'removed' in inner, P + ': the loops over setdata.added / setdata.removed were not found in _calc_modified_m2m')
+    obj_loops = [x for x in gm.nodes if x.kind == 'iter' and any(i.ast in ast.walk(x.ast) for v in inner.values() for i in v)
+                 and 'modified_collections' not in norm(x.ast.iter) and not any(x is i for v in inner.values() for i in v)]
+    ctx.need(obj_loops, P + ': the loop over the objects of a modified collection was not found')
+    nm = 0
+    for marked in (True, False):
+        def atom(text, node, marked=marked):
+            if isinstance(node, ast.Compare) and len(node.ops) == 1 and isinstance(node.comparators[0], ast.Constant) and node.comparators[0].value == 'marked_to_delete' \
+                    and (dotted(node.left) or '').endswith('_status_'):
+                return marked == isinstance(node.ops[0], ast.Eq)
+            if isinstance(node, ast.Attribute) and node.attr in ('added', 'removed'): return True
+            return None
+        eo = scenario_edges(gm, cm.node, atom, resolve=True)
+        for L in obj_loops:
+            starts = [y for y, lab in gm.succ[L.id] if lab == 'loop']
+            for kind in ('added', 'removed'):
+                guards = [i for i in inner[kind] if i.ast in ast.walk(L.ast)]
+                r = gm.reach(starts, avoid=guards, edge_ok=lambda x, y, lab, eo=eo: lab != 'exc' and eo(x, y, lab))
+                ok = bool(guards) and L.id not in r
+                nm += 1
+                ctx.ob(P + '.pending-link-changes-are-collected-whatever-the-owner-status', cm, guards[0].ast.iter if guards else L.ast, ok,
+                       '' if ok else 'for an owner that is %s an iteration of the collecting loop can finish without going through `setdata.%s`: those link rows are not %s by this flush '
+                       '(for a deleted owner: its row is deleted while link rows still refer to it -- the database rejects an orderable deletion)'
+                       % ('marked for deletion' if marked else 'not deleted', kind, 'inserted' if kind == 'added' else 'deleted'), node=L.ast).key += '::%s::%s' % (kind, marked)
+    ctx.floor(P, nm, 4, '(owner status, pending set) scenarios of the collecting loop')
+
+
 def run(ctx):
     repo, cg = ctx.repo, ctx.cg
     fl = repo.fn(CORE, 'SessionCache.flush')
@@ -180,43 +221,7 @@ def run(ctx):
     for f_, creates_ in _C13.protocol_functions(ctx):
         _C13.check_function(ctx, f_, creates_, only_cover_locs={'queue_slot', 'save_queue', '_save_pos_'}, prefix='C16-QUEUE')
     _C13.position_rule(ctx, 'C16-POS')
-    # ---------------------------------------------------------------- M2M
-    # the link rows to insert / remove are taken from every object of a modified collection, whatever the object's own status: an object that is
-    # marked for deletion still has its pending `removed` pairs collected -- flush deletes those link rows *before* the object's own row, which a
-    # link table with plain (non-cascading) foreign keys requires.  Scenario: first side of a many-to-many relation, owner marked_to_delete (and,
-    # as a second scenario, not marked), setdata.added / setdata.removed non-empty: every iteration of the collecting loop passes both inner loops.
-    from ..typestate import scenario_edges
-    cm = repo.fn('pony.orm.core', 'SessionCache._calc_modified_m2m'); gm = cg.cfg(cm)
-    inner = {}
-    for x in gm.nodes:
-        if x.kind != 'iter': continue
-        for a_ in ast.walk(x.ast.iter):
-            if isinstance(a_, ast.Attribute) and a_.attr in ('added', 'removed'): inner.setdefault(a_.attr, []).append(x); break
-    ctx.need('added' in inner and 'removed' in inner, 'C16-M2M: the loops over setdata.added / setdata.removed were not found in _calc_modified_m2m')
-    obj_loops = [x for x in gm.nodes if x.kind == 'iter' and any(i.ast in ast.walk(x.ast) for v in inner.values() for i in v)
-                 and 'modified_collections' not in norm(x.ast.iter) and not any(x is i for v in inner.values() for i in v)]
-    ctx.need(obj_loops, 'C16-M2M: the loop over the objects of a modified collection was not found')
-    nm = 0
-    for marked in (True, False):
-        def atom(text, node, marked=marked):
-            if isinstance(node, ast.Compare) and len(node.ops) == 1 and isinstance(node.comparators[0], ast.Constant) and node.comparators[0].value == 'marked_to_delete' \
-                    and (dotted(node.left) or '').endswith('_status_'):
-                return marked == isinstance(node.ops[0], ast.Eq)
-            if isinstance(node, ast.Attribute) and node.attr in ('added', 'removed'): return True
-            return None
-        eo = scenario_edges(gm, cm.node, atom, resolve=True)
-        for L in obj_loops:
-            starts = [y for y, lab in gm.succ[L.id] if lab == 'loop']
-            for kind in ('added', 'removed'):
-                guards = [i for i in inner[kind] if i.ast in ast.walk(L.ast)]
-                r = gm.reach(starts, avoid=guards, edge_ok=lambda x, y, lab, eo=eo: lab != 'exc' and eo(x, y, lab))
-                ok = bool(guards) and L.id not in r
-                nm += 1
-                ctx.ob('C16-M2M.pending-link-changes-are-collected-whatever-the-owner-status', cm, guards[0].ast.iter if guards else L.ast, ok,
-                       '' if ok else 'for an owner that is %s an iteration of the collecting loop can finish without going through `setdata.%s`: those link rows are not %s by this flush '
-                       '(for a deleted owner: its row is deleted while link rows still refer to it -- the database rejects an orderable deletion)'
-                       % ('marked for deletion' if marked else 'not deleted', kind, 'inserted' if kind == 'added' else 'deleted'), node=L.ast).key += '::%s::%s' % (kind, marked)
-    ctx.floor('C16-M2M', nm, 4, '(owner status, pending set) scenarios of the collecting loop')
+    m2m_rule(ctx)
 
 
 MUTANTS = [
